@@ -81,7 +81,7 @@ theorem specVal_congr {p : Prog} {s s' : State}
 theorem read_spec {p : Prog} (hwf : WF p = true) (hp : MemoOK p) (hne : noEff p = true) {s : State}
     (h : TopInv p s) (m : Nat) :
     TopInv p (readNode (upd p (fuelFor p)) s m).1 ∧
-    (m < p.length → (readNode (upd p (fuelFor p)) s m).2 = specVal p s m) := by
+    (MemoTracked p → m < p.length → (readNode (upd p (fuelFor p)) s m).2 = specVal p s m) := by
   have htrack : track s m = s := by unfold track; rw [h.obs]
   unfold readNode
   rw [htrack]
@@ -90,9 +90,9 @@ theorem read_spec {p : Prog} (hwf : WF p = true) (hp : MemoOK p) (hne : noEff p 
   | eff => exact absurd hk (h.inv.kind_ne_eff hne m)
   | sig =>
     simp only
-    refine ⟨h, fun hm => ?_⟩
+    refine ⟨h, fun htr hm => ?_⟩
     have hc := (h.inv.sigOk m hm hk).1
-    rw [h.inv.clean_correct hwf m hm (by rw [hk]; simp) hc]; rfl
+    rw [h.inv.clean_correct hwf htr m hm (by rw [hk]; simp) hc]; rfl
   | memo =>
     simp only
     have hm : m < p.length := h.inv.memo_lt hk
@@ -102,9 +102,9 @@ theorem read_spec {p : Prog} (hwf : WF p = true) (hp : MemoOK p) (hne : noEff p 
     obtain ⟨s', ch⟩ := r
     simp only at post ⊢
     refine ⟨⟨post.inv, post.obs.trans h.obs, fun i => (post.running i).trans (h.idle i),
-      post.frame.log h.log⟩, fun _ => ?_⟩
+      post.frame.log h.log⟩, fun htr _ => ?_⟩
     have hc := post.clean hk
-    rw [post.inv.clean_correct hwf m hm (by rw [post.frame.kind, hk]; simp) hc]
+    rw [post.inv.clean_correct hwf htr m hm (by rw [post.frame.kind, hk]; simp) hc]
     show specVal p s' m = specVal p s m
     apply specVal_congr
     intro i v hi
@@ -158,12 +158,13 @@ theorem run_topInv {p : Prog} (hwf : WF p = true) (hp : MemoOK p) (hne : noEff p
   | cons o ops ih => intro s h; exact ih _ (step_topInv hwf hp hne h o)
 
 /-- **C01 (a)**: without effects, every read returns the from-scratch value -/
-theorem read_eq_scratch_noeff {p : Prog} (hwf : WF p = true) (hp : MemoOK p) (hne : noEff p = true)
+theorem read_eq_scratch_noeff {p : Prog} (hwf : WF p = true) (hp : MemoOK p) (htr : MemoTracked p)
+    (hne : noEff p = true)
     (ops : List Op) (m : Nat) (hm : m < p.length) :
     (step p (run p ops) (.read m)).2 = some (specVal p (run p ops) m) := by
   have h := run_topInv hwf hp hne ops
   simp only [step]
-  rw [(read_spec hwf hp hne h m).2 hm]
+  rw [(read_spec hwf hp hne h m).2 htr hm]
 
 /-- **C09 (memos)**: without effects, no memo body ever runs unjustified -/
 theorem no_unjust_noeff {p : Prog} (hwf : WF p = true) (hp : MemoOK p) (hne : noEff p = true)
@@ -174,12 +175,16 @@ theorem no_unjust_noeff {p : Prog} (hwf : WF p = true) (hp : MemoOK p) (hne : no
 def bodiesTracked (p : Prog) : Bool :=
   p.all fun d => match d with | .sig _ => true | .memo b => b.noUntracked | .eff b => b.noUntracked
 
-theorem memoOK_of_wf {p : Prog} (hwf : WF p = true) (ht : bodiesTracked p = true) : MemoOK p := by
+theorem memoOK_of_wf {p : Prog} (hwf : WF p = true) : MemoOK p := by
   intro m b hb
   have hw := WF_get hwf hb
   simp only [wfNode, Bool.and_eq_true] at hw
+  exact ⟨hw.1.1, hw.1.2, hw.2⟩
+
+theorem memoTracked_of {p : Prog} (ht : bodiesTracked p = true) : MemoTracked p := by
+  intro m b hb
   have hmem : NodeDef.memo b ∈ p := List.mem_of_getElem? hb
   simp only [bodiesTracked, List.all_eq_true] at ht
-  exact ⟨hw.1.1, hw.1.2, ht _ hmem, hw.2⟩
+  exact ht _ hmem
 
 end Leptos.Reactive
